@@ -235,6 +235,10 @@ def rand_spec(rng, **force):
         }
     if "sprout" in force:
         sprout = force["sprout"]
+    if objective == "penalty" and any(L["engine"] == "local" for L in levels) and not force.get("allow_penalty_local"):
+        # L-BFGS-B produces NaN iterates once the objective returned +-inf (known finding D18):
+        # that combination is replayed as a fixed witness by the C01 check, not generated at random
+        objective = "four"
     if sprout.get("generator") == "nbc_local" and nlev < 2:
         sprout["generator"] = "nbc"  # NBCGeneratorWithLocalMethod needs a level above the leaves
     gk = int(rng.integers(0, 9))
